@@ -69,9 +69,13 @@ def boundary_triple(digital_rf, root, rng, n, d, fc, sc, j, mode, dtype="i2"):
     w = digital_rf.DigitalRFWriter(os.path.join(root, "ch"), np.dtype(dtype), sc, fc, start, n, d, is_complex=False,
                                    num_subchannels=1, is_continuous=cont, compression_level=(1 if mode == "contC" else 0), marching_periods=False)
     one = np.array([7], dtype=dtype)
-    for k in (ks - 1, ks, ks + 1):
-        if k >= start:
-            w.rf_write(one, k - start)
+    if rng.random() < 0.5 and ks - 1 >= start:
+        # one contiguous write across the boundary (the writer has to split it)
+        w.rf_write(np.array([7, 8, 9], dtype=dtype), ks - 1 - start)
+    else:
+        for k in (ks - 1, ks, ks + 1):
+            if k >= start:
+                w.rf_write(one, k - start)
     w.close()
     recs = []
     files = scan_channel(os.path.join(root, "ch"))
